@@ -327,9 +327,12 @@ def s5b(ctx, rep):
             if not nid:
                 continue
             n += 1
-            p = cfg.path([s_ for s_, l in cfg.succ[nid[0]]], cfg.exit, deleted=rec, skip_labels=("exc",)) if nid[0] not in rec else None
+            # a path through the drop that records the trial neither before nor after it
+            p = None
+            if nid[0] not in rec and cfg.path(cfg.entry, nid[0], deleted=rec, skip_labels=("exc",)) is not None:
+                p = cfg.path([s_ for s_, l in cfg.succ[nid[0]]], cfg.exit, deleted=rec, skip_labels=("exc",))
             rep.put(p is None, "S5", "typestate", f"{f.short}: a trial dropped from pending is recorded as observed or failed", f, c,
-                    "followed on every path by " + " / ".join(RECORD),
+                    "every path through it also passes " + " / ".join(RECORD),
                     "the pending evaluation is dropped and the function can return without recording the trial as observed "
                     "(label) or failed: the trial is then in none of pending / failed / observed, its configuration leaves the "
                     "exclusion list and is suggested again", witness=cfg.describe_path(p) if p else None)
